@@ -478,7 +478,7 @@ def register(M):
             if p in ('numpy.datetime64', 'numpy.timedelta64'):
                 return isinstance(v, Sc) and v.dtype == ('M8' if p.endswith('datetime64') else 'm8')
             if p in ('pandas.Timestamp',):
-                return getattr(v, 'abs_kind', None) == 'datetime' and type(v).__name__ == 'TS'
+                return getattr(v, 'abs_kind', None) == 'datetime' and type(v).__name__ == 'TS' and not getattr(v, 'py', False)
             if p in ('pandas.Timedelta', 'datetime.timedelta'):
                 return isinstance(v, Sc) and v.dtype == 'm8'
             if p == 'pandas.Series':
